@@ -108,8 +108,8 @@ Proof.
     rewrite (oracle_accepts_midpoint t t' Hwf Hd Hi ND Hnn1 H).
     assert (SK : supports_kept t t' = true).
     { apply supports_kept_of_lookup. intros k.
-      eapply orel_trans; [apply split_seq_trans| |].
-      - eapply orel_mono; [apply split_qeq_seq|]. eapply midpoint_usplits; eauto.
+      apply (orel_trans _ (split_seq_trans _) _ (find_split k (usplits (unroot t)))).
+      - eapply orel_mono; [apply split_qeq_seq|]. exact (midpoint_usplits t t' Hwf Hd Hi ND Hnn1 H k).
       - destruct (rooted t) eqn:Hr.
         + apply unroot_usplits_sup; auto.
         + rewrite (unroot_not_rooted t Hr). apply orel_refl, split_seq_refl. }
@@ -127,11 +127,11 @@ Proof.
       as (a & b & d & da & db & Hab & Hmax & Hd0 & Hda & Hdb & Eda & Edb).
     destruct (obs_ext len0 elen t) as [_ PE]; [intros z Hz; apply len0_is_elen, Hnn, Hz|].
     destruct (obs_ext len0 elen t') as [DE' _];
-      [intros z Hz; apply len0_is_elen; eapply midpoint_edges_nonneg; eauto|].
+      [intros z Hz; apply len0_is_elen; exact (midpoint_edges_nonneg t t' Hwf Hd Hi ND Hnn1 H z Hz)|].
     rewrite PE, DE'.
     assert (ED : (qmax_list (map snd (pairdists elen t)) == d)%Q).
     { apply qmax_list_max; [apply in_map_iff; exists (a, b, d); auto | | lra].
-      intros y Hy. apply in_map_iff in Hy as [z [<- Hz]]. now apply Hmax. }
+      intros y0 Hy. apply in_map_iff in Hy as [z [<- Hz]]. now apply Hmax. }
     assert (EX : existsb (fun z : string * string * Q =>
                   qeqb (snd z) (qmax_list (map snd (pairdists elen t))) &&
                   oq_eqb (depth_of (depths elen t') (fst (fst z))) (Some (qmax_list (map snd (pairdists elen t)) * (1 # 2))%Q) &&
